@@ -399,6 +399,9 @@ func runC17(w *World, r *Report) {
 		}
 	}
 
+	r.Rule("C17.tool-streams-merge", "the merge of the per-call result streams dispatches consistently for every number of calls (static select table up to its size, reflect select above it): exactly five calls behave like four and six (shared with C01 / C04 / C08 / C18)", 1)
+	mergeDispatchCheck(w, r, "C17.tool-streams-merge")
+
 	r.Rule("C17.index-preserved", "task i <- tool call i; result i <- task i; result lists sized len(tasks)", 3)
 	{
 		// genToolCallTasks: every store into toolCallTasks[i].<field> uses the index of the input.ToolCalls[i] load
